@@ -21,7 +21,7 @@ def canon(o):
         return int(o)
     if isinstance(o, (float, np.floating)):
         f = float(o)
-        return "nan" if f != f else f.hex()
+        return "nan" if f != f else (f + 0.0).hex()  # -0.0 and 0.0 are the same dict key / set element
     if isinstance(o, np.ndarray):
         return tuple(canon(x) for x in o.tolist())
     if isinstance(o, (tuple, list)):
